@@ -1,6 +1,27 @@
 //! Fourth part of the C12 op inventory: the CKKS crate (poulpy-ckks), same conventions as ops.rs.
 //! Each op: build inputs from the Shape, ask the library for the declared scratch size, run the call
 //! through `windowed`, return the output bytes via `finish`.
+//!
+//! Layout derivation (see `params`): one radix `b = sh.b_in` for every ciphertext and plaintext,
+//! rank `sh.rank_out`, input ciphertexts really encrypted with `ckks_encrypt_sk` (so that their
+//! metadata is what the library itself produces), evaluation keys in radix `sh.b_key` / `sh.dsize`.
+//! Every CKKS op returns `Result`: an `Err` is unwrapped inside the monitored region, i.e. an error
+//! in the reference run makes the shape inadmissible and an error that only shows up with the
+//! declared-size window is a FIT violation.
+//!
+//! Which layout goes into a query: parameters named `res` / `a` get the destination / the input as
+//! they are (for the `_assign` forms the receiver is both); a query with a single neutral
+//! `ct_infos` (rotate, conjugate) gets the wider buffer of source and destination; the dot products
+//! with plaintext weights get the widest ciphertext of the vector as `a`.
+//! KNOWN FINDING (kept in the inventory on purpose): `ckks_mul_tmp_bytes(res, tsk)` /
+//! `ckks_square_tmp_bytes(res, tsk)` and the composites built on them (`mul_add_ct`, `mul_sub_ct`,
+//! `mul_many`, `dot_product_ct`) size the tensor buffer from `res` only, while the ops size it from
+//! `max(a.max_k, b.max_k)`: whenever an input has more limbs than the destination the declared size
+//! is too small (FIT:panic_with_declared_size); with destination >= inputs these ops are clean.
+//!
+//! Ops named `ckks_all_ops__<member>` / `ckks_all_ops_with_atk__<member>` run the member op with a
+//! window of exactly the aggregate query's answer; the aggregate is told the widest ciphertext layout
+//! of the case, the other operand and the destination are that wide or narrower.
 macro_rules! core_ops4_impl {
     ($be:ty) => {
         pub mod ops4 {
@@ -9,12 +30,1047 @@ macro_rules! core_ops4_impl {
             #[allow(unused_imports)]
             use super::*;
             use crate::c12::ops::Shape;
+            #[allow(unused_imports)]
+            use poulpy_ckks::layouts::{
+                CKKSCiphertext, CKKSConstPlaintextConversion, CKKSPlaintextConversion, CKKSPlaintextCstRnx, CKKSPlaintextCstZnx,
+                CKKSPlaintextVecRnx, CKKSPlaintextVecZnx,
+            };
+            #[allow(unused_imports)]
+            use poulpy_ckks::leveled::api::*;
+            #[allow(unused_imports)]
+            use poulpy_ckks::{CKKSInfos, CKKSMeta};
+            #[allow(unused_imports)]
+            use poulpy_core::layouts::{
+                GLWEAutomorphismKey, GLWEAutomorphismKeyPrepared, GLWEAutomorphismKeyPreparedFactory, GLWEInfos, GLWEPlaintext,
+                GLWETensorKey, GLWETensorKeyLayout, GLWETensorKeyPrepared, GLWETensorKeyPreparedFactory, LWEInfos,
+            };
+            #[allow(unused_imports)]
+            use poulpy_core::{GLWEAutomorphismKeyEncryptSk, GLWETensorKeyEncryptSk};
+            #[allow(unused_imports)]
+            use poulpy_hal::layouts::{FillUniform, GaloisElement, WriterTo};
 
-            pub const OPS4: &[&str] = &[];
+            pub const OPS4: &[&str] = &[
+                "ckks_encrypt_sk",
+                "ckks_decrypt",
+                "ckks_extract_pt_znx",
+                "ckks_add_into",
+                "ckks_add_assign",
+                "ckks_add_pt_vec_znx_into",
+                "ckks_add_pt_vec_znx_assign",
+                "ckks_add_pt_vec_rnx_into",
+                "ckks_add_pt_vec_rnx_assign",
+                "ckks_add_pt_const_znx_into",
+                "ckks_add_pt_const_znx_assign",
+                "ckks_add_pt_const_rnx_into",
+                "ckks_add_pt_const_rnx_assign",
+                "ckks_add_into_unsafe",
+                "ckks_add_assign_unsafe",
+                "ckks_add_pt_vec_znx_into_unsafe",
+                "ckks_add_pt_vec_znx_assign_unsafe",
+                "ckks_add_pt_vec_rnx_into_unsafe",
+                "ckks_add_pt_vec_rnx_assign_unsafe",
+                "ckks_add_pt_const_znx_into_unsafe",
+                "ckks_add_pt_const_znx_assign_unsafe",
+                "ckks_add_pt_const_rnx_into_unsafe",
+                "ckks_add_pt_const_rnx_assign_unsafe",
+                "ckks_sub_into",
+                "ckks_sub_assign",
+                "ckks_sub_pt_vec_znx_into",
+                "ckks_sub_pt_vec_znx_assign",
+                "ckks_sub_pt_vec_rnx_into",
+                "ckks_sub_pt_vec_rnx_assign",
+                "ckks_sub_pt_const_znx_into",
+                "ckks_sub_pt_const_znx_assign",
+                "ckks_sub_pt_const_rnx_into",
+                "ckks_sub_pt_const_rnx_assign",
+                "ckks_sub_into_unsafe",
+                "ckks_sub_assign_unsafe",
+                "ckks_sub_pt_vec_znx_into_unsafe",
+                "ckks_sub_pt_vec_znx_assign_unsafe",
+                "ckks_sub_pt_vec_rnx_into_unsafe",
+                "ckks_sub_pt_vec_rnx_assign_unsafe",
+                "ckks_sub_pt_const_znx_into_unsafe",
+                "ckks_sub_pt_const_znx_assign_unsafe",
+                "ckks_sub_pt_const_rnx_into_unsafe",
+                "ckks_sub_pt_const_rnx_assign_unsafe",
+                "ckks_neg_into",
+                "ckks_mul_pow2_into",
+                "ckks_mul_pow2_assign",
+                "ckks_div_pow2_into",
+                "ckks_rescale_into",
+                "ckks_rescale_assign",
+                "ckks_align_assign",
+                "ckks_mul_into",
+                "ckks_mul_assign",
+                "ckks_square_into",
+                "ckks_square_assign",
+                "ckks_mul_pt_vec_znx_into",
+                "ckks_mul_pt_vec_znx_assign",
+                "ckks_mul_pt_vec_rnx_into",
+                "ckks_mul_pt_vec_rnx_assign",
+                "ckks_mul_pt_const_znx_into",
+                "ckks_mul_pt_const_znx_assign",
+                "ckks_mul_pt_const_rnx_into",
+                "ckks_mul_pt_const_rnx_assign",
+                "ckks_rotate_into",
+                "ckks_rotate_assign",
+                "ckks_conjugate_into",
+                "ckks_conjugate_assign",
+                "ckks_add_many",
+                "ckks_mul_many",
+                "ckks_mul_add_ct_into",
+                "ckks_mul_add_pt_vec_znx_into",
+                "ckks_mul_add_pt_vec_rnx_into",
+                "ckks_mul_add_pt_const_znx_into",
+                "ckks_mul_add_pt_const_rnx_into",
+                "ckks_mul_sub_ct_into",
+                "ckks_mul_sub_pt_vec_znx_into",
+                "ckks_mul_sub_pt_vec_rnx_into",
+                "ckks_mul_sub_pt_const_znx_into",
+                "ckks_mul_sub_pt_const_rnx_into",
+                "ckks_dot_product_ct",
+                "ckks_dot_product_pt_vec_znx",
+                "ckks_dot_product_pt_vec_rnx",
+                "ckks_dot_product_pt_const_znx",
+                "ckks_dot_product_pt_const_rnx",
+                // aggregate query ckks_all_ops_tmp_bytes serving each member
+                "ckks_all_ops__ckks_encrypt_sk",
+                "ckks_all_ops__ckks_decrypt",
+                "ckks_all_ops__ckks_add_into",
+                "ckks_all_ops__ckks_add_assign",
+                "ckks_all_ops__ckks_add_pt_vec_znx_into",
+                "ckks_all_ops__ckks_add_pt_vec_rnx_into",
+                "ckks_all_ops__ckks_add_pt_const_znx_into",
+                "ckks_all_ops__ckks_add_pt_const_rnx_into",
+                "ckks_all_ops__ckks_sub_into",
+                "ckks_all_ops__ckks_sub_assign",
+                "ckks_all_ops__ckks_sub_pt_vec_znx_into",
+                "ckks_all_ops__ckks_sub_pt_vec_rnx_into",
+                "ckks_all_ops__ckks_sub_pt_const_znx_into",
+                "ckks_all_ops__ckks_sub_pt_const_rnx_into",
+                "ckks_all_ops__ckks_neg_into",
+                "ckks_all_ops__ckks_mul_pow2_into",
+                "ckks_all_ops__ckks_div_pow2_into",
+                "ckks_all_ops__ckks_rescale_into",
+                "ckks_all_ops__ckks_align_assign",
+                "ckks_all_ops__ckks_mul_into",
+                "ckks_all_ops__ckks_mul_assign",
+                "ckks_all_ops__ckks_square_into",
+                "ckks_all_ops__ckks_square_assign",
+                "ckks_all_ops__ckks_mul_pt_vec_znx_into",
+                "ckks_all_ops__ckks_mul_pt_vec_rnx_into",
+                "ckks_all_ops__ckks_mul_pt_const_znx_into",
+                "ckks_all_ops__ckks_mul_pt_const_rnx_into",
+                "ckks_all_ops__ckks_extract_pt_znx",
+                "ckks_all_ops__ckks_add_pt_vec_znx_assign",
+                "ckks_all_ops__ckks_sub_pt_vec_rnx_assign",
+                "ckks_all_ops__ckks_add_pt_const_rnx_assign",
+                "ckks_all_ops__ckks_mul_pow2_assign",
+                "ckks_all_ops__ckks_rescale_assign",
+                "ckks_all_ops__ckks_mul_pt_vec_znx_assign",
+                "ckks_all_ops__ckks_mul_pt_vec_rnx_assign",
+                "ckks_all_ops__ckks_mul_pt_const_znx_assign",
+                "ckks_all_ops__ckks_mul_pt_const_rnx_assign",
+                "ckks_all_ops__tensor_key_prepare",
+                "ckks_all_ops__tensor_key_encrypt_sk",
+                // aggregate query ckks_all_ops_with_atk_tmp_bytes
+                "ckks_all_ops_with_atk__ckks_rotate_into",
+                "ckks_all_ops_with_atk__ckks_rotate_assign",
+                "ckks_all_ops_with_atk__ckks_conjugate_into",
+                "ckks_all_ops_with_atk__ckks_conjugate_assign",
+                "ckks_all_ops_with_atk__automorphism_key_encrypt_sk",
+                "ckks_all_ops_with_atk__automorphism_key_prepare",
+                "ckks_all_ops_with_atk__ckks_mul_into",
+                "ckks_all_ops_with_atk__ckks_add_pt_vec_rnx_into",
+                "ckks_all_ops_with_atk__ckks_decrypt",
+            ];
 
-            #[allow(unused_variables)]
+            type Ct = CKKSCiphertext<Vec<u8>>;
+            type SkP = GLWESecretPrepared<DeviceBuf<BE>, BE>;
+
+            fn gl(n: u32, b: u32, k: usize, rank: u32) -> GLWELayout {
+                GLWELayout {
+                    n: Degree(n),
+                    base2k: Base2K(b),
+                    k: TorusPrecision(k as u32),
+                    rank: Rank(rank),
+                }
+            }
+
+            fn skp(c: &Ctx, rank: u32, seed: u64) -> (GLWESecret<Vec<u8>>, SkP) {
+                let mut s: GLWESecret<Vec<u8>> = GLWESecret::alloc(Degree(c.n), Rank(rank));
+                s.fill_ternary_prob(0.5, &mut src(seed, 1));
+                let mut p: SkP = c.module.glwe_secret_prepared_alloc(Rank(rank));
+                c.module.glwe_secret_prepare(&mut p, &s);
+                (s, p)
+            }
+
+            fn meta_bytes(m: CKKSMeta) -> Vec<u8> {
+                let mut v = (m.log_delta as u64).to_le_bytes().to_vec();
+                v.extend_from_slice(&(m.log_budget as u64).to_le_bytes());
+                v
+            }
+
+            /// Output of a ciphertext: limbs and the semantic metadata the op left behind.
+            fn ct_out(ct: &Ct) -> Vec<Vec<u8>> {
+                vec![ct.data().data.clone(), meta_bytes(ct.meta())]
+            }
+
+            fn ser<T: WriterTo>(x: &T) -> Vec<u8> {
+                let mut bytes = Vec::new();
+                x.write_to(&mut bytes).unwrap();
+                bytes
+            }
+
+            /// Parameters derived from the Shape.
+            struct P {
+                b: u32,
+                rank: u32,
+                /// effective torus width (log_delta + log_budget) and log_delta of the two input ciphertexts
+                eff_a: usize,
+                ld_a: usize,
+                eff_b: usize,
+                ld_b: usize,
+                /// storage width of the destination of the `_into` forms
+                k_dst: usize,
+                /// plaintext precision
+                pt: CKKSMeta,
+                /// shift amount of pow2 / rescale
+                bits: usize,
+                /// spare storage (bits) of the first operand beyond its effective width
+                head: usize,
+            }
+
+            /// `agg`: the case runs under one of the aggregate queries, which are told a single ciphertext
+            /// layout (the widest one, `eff_a`): the other operand and the destination are that wide or narrower.
+            fn params(sh: &Shape, agg: bool) -> P {
+                let b = sh.b_in;
+                let bu = b as usize;
+                let s = sh.seed;
+                let eff_a = sh.k_in as usize + 2 * bu;
+                let ld_a = 2 + ((s >> 8) as usize) % (eff_a / 2 - 1);
+                let eff_b = if !agg {
+                    sh.k_res as usize + 2 * bu
+                } else if (s >> 36) & 1 == 0 {
+                    eff_a
+                } else {
+                    (eff_a - (s >> 37) as usize % (bu + 2)).max(2 * ld_a)
+                };
+                let ld_b = if agg || sh.extra & 1 == 0 {
+                    ld_a
+                } else {
+                    (ld_a + (s >> 20) as usize % 5).saturating_sub(2)
+                }
+                .min(eff_b / 2)
+                .max(1);
+                let k_dst = match ((sh.extra >> 1) % 4, agg) {
+                    (0, _) | (2, true) => eff_a,
+                    (1, _) => eff_a.saturating_sub(bu + 1).max(bu),
+                    (2, false) => eff_a + bu,
+                    (_, false) => sh.k_res as usize + bu,
+                    (_, true) => eff_b,
+                };
+                let ld_pt = if (s >> 27) & 1 == 0 {
+                    ld_a
+                } else {
+                    (ld_a + (s >> 24) as usize % 5).saturating_sub(2).max(1)
+                };
+                let head = if !agg && (s >> 52) & 3 == 0 { bu } else { 0 };
+                // flags bit 0: the second operand is no wider than the first and the destination at least as
+                // wide as both (the res-only multiplication queries are then given the widest layout)
+                let (eff_b, ld_b, k_dst) = if sh.flags & 1 == 1 {
+                    let eb = eff_b.min(eff_a);
+                    (eb, ld_b.min(eb / 2).max(1), k_dst.max(eff_a + head).max(eb))
+                } else {
+                    (eff_b, ld_b, k_dst)
+                };
+                P {
+                    b,
+                    rank: sh.rank_out,
+                    eff_a,
+                    ld_a,
+                    eff_b,
+                    ld_b,
+                    k_dst,
+                    pt: CKKSMeta {
+                        log_delta: ld_pt,
+                        log_budget: (s >> 28) as usize % 6,
+                    },
+                    bits: (s >> 32) as usize % (bu + 3),
+                    head,
+                }
+            }
+
+            /// A ciphertext produced by the library's own encryption: width `eff`, scaling `ld`.
+            #[allow(clippy::too_many_arguments)]
+            fn enc(c: &Ctx, sp: &SkP, p: &P, eff: usize, ld: usize, seed: u64, tag: u8, big: &mut ScratchOwned<BE>) -> Ct {
+                let infos = gl(c.n, p.b, eff, p.rank);
+                // tag 10 is the first operand: one case in four its buffer has a spare limb
+                let store = gl(c.n, p.b, eff + if tag == 10 { p.head } else { 0 }, p.rank);
+                let mut ct: Ct = CKKSCiphertext::alloc_from_infos(&store).unwrap();
+                let mut pt = CKKSPlaintextVecZnx::alloc(
+                    Degree(c.n),
+                    Base2K(p.b),
+                    CKKSMeta {
+                        log_delta: ld,
+                        log_budget: 0,
+                    },
+                );
+                pt.data_mut().fill_uniform(p.b as usize, &mut src(seed, tag));
+                let e = EncryptionLayout::new_from_default_sigma(infos).unwrap();
+                c.module
+                    .ckks_encrypt_sk(&mut ct, &pt, sp, &e, &mut src(seed, tag + 1), &mut src(seed, tag + 2), big.borrow())
+                    .unwrap();
+                ct
+            }
+
+            fn alloc_ct(c: &Ctx, p: &P, k: usize) -> Ct {
+                CKKSCiphertext::alloc_from_infos(&gl(c.n, p.b, k, p.rank)).unwrap()
+            }
+
+            fn pt_znx(c: &Ctx, p: &P, meta: CKKSMeta, seed: u64, tag: u8) -> CKKSPlaintextVecZnx<Vec<u8>> {
+                let mut pt = CKKSPlaintextVecZnx::alloc(Degree(c.n), Base2K(p.b), meta);
+                pt.data_mut().fill_uniform(p.b as usize, &mut src(seed, tag));
+                pt
+            }
+
+            fn pt_rnx(c: &Ctx, seed: u64, tag: u8) -> CKKSPlaintextVecRnx<f64> {
+                let mut pt = CKKSPlaintextVecRnx::<f64>::alloc(c.n as usize).unwrap();
+                let mut sx = src(seed, tag);
+                for x in pt.data_mut().iter_mut() {
+                    *x = sx.next_f64(-1.0, 1.0);
+                }
+                pt
+            }
+
+            /// Constant with both parts, real only, imaginary only, or (rarely) empty.
+            fn cst_rnx(sh: &Shape, tag: u8) -> CKKSPlaintextCstRnx<f64> {
+                let mut sx = src(sh.seed, tag);
+                let re = sx.next_f64(-1.0, 1.0);
+                let im = sx.next_f64(-1.0, 1.0);
+                match (sh.seed >> 40) % 8 {
+                    0 | 1 => CKKSPlaintextCstRnx::new(Some(re), None),
+                    2 | 3 => CKKSPlaintextCstRnx::new(None, Some(im)),
+                    4 => CKKSPlaintextCstRnx::new(None, None),
+                    _ => CKKSPlaintextCstRnx::new(Some(re), Some(im)),
+                }
+            }
+
+            fn key_k(sh: &Shape, k_ct: usize) -> (u32, u32) {
+                // one more digit than what covers the ciphertext: dnum * dsize <= size of the key
+                let unit = sh.dsize * sh.b_key;
+                (k_ct as u32 + unit, (k_ct as u32).div_ceil(unit))
+            }
+
+            fn tsk_layout(sh: &Shape, p: &P, k_ct: usize) -> GLWETensorKeyLayout {
+                let (k, dnum) = key_k(sh, k_ct);
+                GLWETensorKeyLayout {
+                    n: Degree(sh.n),
+                    base2k: Base2K(sh.b_key),
+                    k: TorusPrecision(k),
+                    rank: Rank(p.rank),
+                    dnum: Dnum(dnum),
+                    dsize: Dsize(sh.dsize),
+                }
+            }
+
+            fn atk_layout(sh: &Shape, p: &P, k_ct: usize) -> GLWEAutomorphismKeyLayout {
+                let (k, dnum) = key_k(sh, k_ct);
+                GLWEAutomorphismKeyLayout {
+                    n: Degree(sh.n),
+                    base2k: Base2K(sh.b_key),
+                    k: TorusPrecision(k),
+                    rank: Rank(p.rank),
+                    dnum: Dnum(dnum),
+                    dsize: Dsize(sh.dsize),
+                }
+            }
+
+            /// Tensor key prepared from random limbs (the products are arithmetic in the key).
+            fn tsk_prepared(c: &Ctx, sh: &Shape, infos: &GLWETensorKeyLayout, big: &mut ScratchOwned<BE>) -> GLWETensorKeyPrepared<DeviceBuf<BE>, BE> {
+                let mut tsk: GLWETensorKey<Vec<u8>> = GLWETensorKey::alloc_from_infos(infos);
+                tsk.fill_uniform(sh.b_key as usize, &mut src(sh.seed, 40));
+                let mut tp = c.module.alloc_tensor_key_prepared_from_infos(infos);
+                c.module.prepare_tensor_key(&mut tp, &tsk, big.borrow());
+                tp
+            }
+
+            /// Automorphism key for Galois element `gal`, encrypted for real (the element matters).
+            fn atk_real(
+                c: &Ctx,
+                sh: &Shape,
+                infos: &GLWEAutomorphismKeyLayout,
+                s_raw: &GLWESecret<Vec<u8>>,
+                gal: i64,
+                big: &mut ScratchOwned<BE>,
+            ) -> GLWEAutomorphismKey<Vec<u8>> {
+                let mut atk: GLWEAutomorphismKey<Vec<u8>> = GLWEAutomorphismKey::alloc_from_infos(infos);
+                let e = EncryptionLayout::new_from_default_sigma(*infos).unwrap();
+                c.module
+                    .glwe_automorphism_key_encrypt_sk(&mut atk, gal, s_raw, &e, &mut src(sh.seed, 43), &mut src(sh.seed, 44), big.borrow());
+                atk
+            }
+
+            fn atk_prepared(
+                c: &Ctx,
+                sh: &Shape,
+                infos: &GLWEAutomorphismKeyLayout,
+                s_raw: &GLWESecret<Vec<u8>>,
+                gal: i64,
+                big: &mut ScratchOwned<BE>,
+            ) -> GLWEAutomorphismKeyPrepared<DeviceBuf<BE>, BE> {
+                let atk = atk_real(c, sh, infos, s_raw, gal, big);
+                let mut ap = c.module.glwe_automorphism_key_prepared_alloc_from_infos(&atk);
+                c.module.glwe_automorphism_key_prepare(&mut ap, &atk, big.borrow());
+                ap
+            }
+
+            const ADDSUB_KINDS: &[&str] = &[
+                "into",
+                "assign",
+                "pt_vec_znx_into",
+                "pt_vec_znx_assign",
+                "pt_vec_rnx_into",
+                "pt_vec_rnx_assign",
+                "pt_const_znx_into",
+                "pt_const_znx_assign",
+                "pt_const_rnx_into",
+                "pt_const_rnx_assign",
+            ];
+
+            /// `ckks_{add,sub}_<kind>[_unsafe]` -> (is_add, kind, is_unsafe)
+            fn addsub_kind(op: &str) -> Option<(bool, &'static str, bool)> {
+                let (base, uns) = match op.strip_suffix("_unsafe") {
+                    Some(b) => (b, true),
+                    None => (op, false),
+                };
+                let (add, rest) = if let Some(r) = base.strip_prefix("ckks_add_") {
+                    (true, r)
+                } else if let Some(r) = base.strip_prefix("ckks_sub_") {
+                    (false, r)
+                } else {
+                    return None;
+                };
+                ADDSUB_KINDS.iter().find(|k| **k == rest).map(|k| (add, *k, uns))
+            }
+
             pub fn core_op4(op: &str, sh: &Shape, w: &Window) -> Option<RunResult> {
-                None
+                if !OPS4.contains(&op) {
+                    return None;
+                }
+                let (agg, base) = if let Some(b) = op.strip_prefix("ckks_all_ops_with_atk__") {
+                    (2u8, b)
+                } else if let Some(b) = op.strip_prefix("ckks_all_ops__") {
+                    (1u8, b)
+                } else {
+                    (0u8, op)
+                };
+                Some(run(base, agg, sh, w))
+            }
+
+            fn run(op: &str, agg: u8, sh: &Shape, w: &Window) -> RunResult {
+                let c = ctx(sh.n, 1);
+                let m = &c.module;
+                let mut big: ScratchOwned<BE> = ScratchOwned::alloc(1 << 22);
+                let p = params(sh, agg != 0);
+                let n = sh.n;
+                let seed = sh.seed;
+                let b2k = Base2K(p.b);
+                let (s_raw, sp) = skp(c, p.rank, seed);
+                let lb_a = p.eff_a - p.ld_a;
+                let ct_infos = gl(n, p.b, p.eff_a, p.rank);
+                let k_ct_max = (p.eff_a + p.head).max(p.eff_b).max(p.k_dst);
+                let tski = tsk_layout(sh, &p, k_ct_max);
+                let atki = atk_layout(sh, &p, k_ct_max);
+                // the size handed to the op: its own query, or one of the aggregate queries
+                let decl = |own: usize| -> usize {
+                    match agg {
+                        0 => own,
+                        1 => m.ckks_all_ops_tmp_bytes(&ct_infos, &tski, &p.pt),
+                        _ => m.ckks_all_ops_with_atk_tmp_bytes(&ct_infos, &tski, &atki, &p.pt),
+                    }
+                };
+                macro_rules! go {
+                    ($own:expr, |$s:ident| $call:expr, $outs:expr) => {{
+                        let declared = decl($own);
+                        let r = windowed(declared, w, &mut |$s| {
+                            $call.unwrap();
+                        });
+                        finish(r, declared, $outs)
+                    }};
+                }
+                match op {
+                    "ckks_encrypt_sk" => {
+                        let mut ct = alloc_ct(c, &p, p.eff_a);
+                        let pt = pt_znx(
+                            c,
+                            &p,
+                            CKKSMeta {
+                                log_delta: p.ld_a,
+                                log_budget: p.pt.log_budget,
+                            },
+                            seed,
+                            2,
+                        );
+                        let e = EncryptionLayout::new_from_default_sigma(ct_infos).unwrap();
+                        go!(
+                            m.ckks_encrypt_sk_tmp_bytes(&ct_infos),
+                            |s| m.ckks_encrypt_sk(&mut ct, &pt, &sp, &e, &mut src(seed, 3), &mut src(seed, 4), s),
+                            ct_out(&ct)
+                        )
+                    }
+                    "ckks_decrypt" => {
+                        let a = enc(c, &sp, &p, p.eff_a, p.ld_a, seed, 10, &mut big);
+                        let mut pt = CKKSPlaintextVecZnx::alloc(
+                            Degree(n),
+                            b2k,
+                            CKKSMeta {
+                                log_delta: p.pt.log_delta,
+                                log_budget: p.pt.log_budget.min(lb_a),
+                            },
+                        );
+                        go!(
+                            m.ckks_decrypt_tmp_bytes(&a),
+                            |s| m.ckks_decrypt(&mut pt, &a, &sp, s),
+                            vec![pt.data().data.clone()]
+                        )
+                    }
+                    "ckks_extract_pt_znx" => {
+                        let mut full: GLWEPlaintext<Vec<u8>> = GLWEPlaintext::alloc_from_infos(&ct_infos);
+                        full.data_mut().fill_uniform(p.b as usize, &mut src(seed, 2));
+                        let src_meta = CKKSMeta {
+                            log_delta: p.ld_a,
+                            log_budget: lb_a,
+                        };
+                        let mut pt = CKKSPlaintextVecZnx::alloc(Degree(n), b2k, p.pt);
+                        go!(
+                            m.ckks_extract_pt_znx_tmp_bytes(),
+                            |s| m.ckks_extract_pt_znx(&mut pt, &full, &src_meta, s),
+                            vec![pt.data().data.clone()]
+                        )
+                    }
+                    _ if addsub_kind(op).is_some() => {
+                        // ckks_{add,sub}_<kind>[_unsafe]: the unsafe forms share the query of the safe ones
+                        let (add, kind, uns) = addsub_kind(op).unwrap();
+                        macro_rules! as4 {
+                            ($as_:ident, $au:ident, $ss:ident, $su:ident, $args:tt) => {
+                                match (add, uns) {
+                                    (true, false) => m.$as_ $args,
+                                    (true, true) => unsafe { m.$au $args },
+                                    (false, false) => m.$ss $args,
+                                    (false, true) => unsafe { m.$su $args },
+                                }
+                            };
+                        }
+                        let mut a = enc(c, &sp, &p, p.eff_a, p.ld_a, seed, 10, &mut big);
+                        let mut dst = alloc_ct(c, &p, p.k_dst);
+                        match kind {
+                            "into" => {
+                                let b = enc(c, &sp, &p, p.eff_b, p.ld_b, seed, 20, &mut big);
+                                let own = if add { m.ckks_add_tmp_bytes() } else { m.ckks_sub_tmp_bytes() };
+                                go!(
+                                    own,
+                                    |s| as4!(ckks_add_into, ckks_add_into_unsafe, ckks_sub_into, ckks_sub_into_unsafe, (&mut dst, &a, &b, s)),
+                                    ct_out(&dst)
+                                )
+                            }
+                            "assign" => {
+                                let b = enc(c, &sp, &p, p.eff_b, p.ld_b, seed, 20, &mut big);
+                                let own = if add { m.ckks_add_tmp_bytes() } else { m.ckks_sub_tmp_bytes() };
+                                go!(
+                                    own,
+                                    |s| as4!(ckks_add_assign, ckks_add_assign_unsafe, ckks_sub_assign, ckks_sub_assign_unsafe, (&mut a, &b, s)),
+                                    ct_out(&a)
+                                )
+                            }
+                            "pt_vec_znx_into" | "pt_vec_znx_assign" => {
+                                let pt = pt_znx(c, &p, p.pt, seed, 30);
+                                let own = if add { m.ckks_add_pt_vec_znx_tmp_bytes() } else { m.ckks_sub_pt_vec_znx_tmp_bytes() };
+                                if kind == "pt_vec_znx_into" {
+                                    go!(
+                                        own,
+                                        |s| as4!(
+                                            ckks_add_pt_vec_znx_into,
+                                            ckks_add_pt_vec_znx_into_unsafe,
+                                            ckks_sub_pt_vec_znx_into,
+                                            ckks_sub_pt_vec_znx_into_unsafe,
+                                            (&mut dst, &a, &pt, s)
+                                        ),
+                                        ct_out(&dst)
+                                    )
+                                } else {
+                                    go!(
+                                        own,
+                                        |s| as4!(
+                                            ckks_add_pt_vec_znx_assign,
+                                            ckks_add_pt_vec_znx_assign_unsafe,
+                                            ckks_sub_pt_vec_znx_assign,
+                                            ckks_sub_pt_vec_znx_assign_unsafe,
+                                            (&mut a, &pt, s)
+                                        ),
+                                        ct_out(&a)
+                                    )
+                                }
+                            }
+                            "pt_vec_rnx_into" => {
+                                let pt = pt_rnx(c, seed, 30);
+                                let own = if add {
+                                    m.ckks_add_pt_vec_rnx_tmp_bytes(&dst, &a, &p.pt)
+                                } else {
+                                    m.ckks_sub_pt_vec_rnx_tmp_bytes(&dst, &a, &p.pt)
+                                };
+                                go!(
+                                    own,
+                                    |s| as4!(
+                                        ckks_add_pt_vec_rnx_into,
+                                        ckks_add_pt_vec_rnx_into_unsafe,
+                                        ckks_sub_pt_vec_rnx_into,
+                                        ckks_sub_pt_vec_rnx_into_unsafe,
+                                        (&mut dst, &a, &pt, p.pt, s)
+                                    ),
+                                    ct_out(&dst)
+                                )
+                            }
+                            "pt_vec_rnx_assign" => {
+                                let pt = pt_rnx(c, seed, 30);
+                                let own = if add {
+                                    m.ckks_add_pt_vec_rnx_tmp_bytes(&a, &a, &p.pt)
+                                } else {
+                                    m.ckks_sub_pt_vec_rnx_tmp_bytes(&a, &a, &p.pt)
+                                };
+                                go!(
+                                    own,
+                                    |s| as4!(
+                                        ckks_add_pt_vec_rnx_assign,
+                                        ckks_add_pt_vec_rnx_assign_unsafe,
+                                        ckks_sub_pt_vec_rnx_assign,
+                                        ckks_sub_pt_vec_rnx_assign_unsafe,
+                                        (&mut a, &pt, p.pt, s)
+                                    ),
+                                    ct_out(&a)
+                                )
+                            }
+                            _ => {
+                                let cst = cst_rnx(sh, 31);
+                                // the digits of a quantized constant are injected as they are: they have to be
+                                // aligned to the receiver's log_budget (see to_znx_at_k)
+                                let into = kind.ends_with("_into");
+                                let offset = if into { p.eff_a.saturating_sub(dst.max_k().as_usize()) } else { 0 };
+                                let res_lb = lb_a.saturating_sub(offset);
+                                let cst_z = cst.to_znx_at_k(b2k, res_lb + p.pt.log_delta, p.pt.log_delta).unwrap();
+                                let own = if add { m.ckks_add_pt_const_tmp_bytes() } else { m.ckks_sub_pt_const_tmp_bytes() };
+                                match kind {
+                                    "pt_const_znx_into" => go!(
+                                        own,
+                                        |s| as4!(
+                                            ckks_add_pt_const_znx_into,
+                                            ckks_add_pt_const_znx_into_unsafe,
+                                            ckks_sub_pt_const_znx_into,
+                                            ckks_sub_pt_const_znx_into_unsafe,
+                                            (&mut dst, &a, &cst_z, s)
+                                        ),
+                                        ct_out(&dst)
+                                    ),
+                                    "pt_const_znx_assign" => go!(
+                                        own,
+                                        |s| as4!(
+                                            ckks_add_pt_const_znx_assign,
+                                            ckks_add_pt_const_znx_assign_unsafe,
+                                            ckks_sub_pt_const_znx_assign,
+                                            ckks_sub_pt_const_znx_assign_unsafe,
+                                            (&mut a, &cst_z, s)
+                                        ),
+                                        ct_out(&a)
+                                    ),
+                                    "pt_const_rnx_into" => go!(
+                                        own,
+                                        |s| as4!(
+                                            ckks_add_pt_const_rnx_into,
+                                            ckks_add_pt_const_rnx_into_unsafe,
+                                            ckks_sub_pt_const_rnx_into,
+                                            ckks_sub_pt_const_rnx_into_unsafe,
+                                            (&mut dst, &a, &cst, p.pt, s)
+                                        ),
+                                        ct_out(&dst)
+                                    ),
+                                    _ => go!(
+                                        own,
+                                        |s| as4!(
+                                            ckks_add_pt_const_rnx_assign,
+                                            ckks_add_pt_const_rnx_assign_unsafe,
+                                            ckks_sub_pt_const_rnx_assign,
+                                            ckks_sub_pt_const_rnx_assign_unsafe,
+                                            (&mut a, &cst, p.pt, s)
+                                        ),
+                                        ct_out(&a)
+                                    ),
+                                }
+                            }
+                        }
+                    }
+                    "ckks_neg_into" | "ckks_mul_pow2_into" | "ckks_mul_pow2_assign" | "ckks_div_pow2_into" | "ckks_rescale_into" | "ckks_rescale_assign" => {
+                        let mut a = enc(c, &sp, &p, p.eff_a, p.ld_a, seed, 10, &mut big);
+                        let mut dst = alloc_ct(c, &p, p.k_dst);
+                        let bits = p.bits;
+                        match op {
+                            "ckks_neg_into" => go!(m.ckks_neg_tmp_bytes(), |s| m.ckks_neg_into(&mut dst, &a, s), ct_out(&dst)),
+                            "ckks_mul_pow2_into" => {
+                                go!(m.ckks_mul_pow2_tmp_bytes(), |s| m.ckks_mul_pow2_into(&mut dst, &a, bits, s), ct_out(&dst))
+                            }
+                            "ckks_mul_pow2_assign" => {
+                                go!(m.ckks_mul_pow2_tmp_bytes(), |s| m.ckks_mul_pow2_assign(&mut a, bits, s), ct_out(&a))
+                            }
+                            "ckks_div_pow2_into" => {
+                                go!(m.ckks_div_pow2_tmp_bytes(), |s| m.ckks_div_pow2_into(&mut dst, &a, bits, s), ct_out(&dst))
+                            }
+                            "ckks_rescale_into" => {
+                                go!(m.ckks_rescale_tmp_bytes(), |s| m.ckks_rescale_into(&mut dst, bits, &a, s), ct_out(&dst))
+                            }
+                            _ => go!(m.ckks_rescale_tmp_bytes(), |s| m.ckks_rescale_assign(&mut a, bits, s), ct_out(&a)),
+                        }
+                    }
+                    "ckks_align_assign" => {
+                        let ld_b = p.ld_b;
+                        let mut a = enc(c, &sp, &p, p.eff_a, p.ld_a, seed, 10, &mut big);
+                        let mut b = enc(c, &sp, &p, p.eff_b, ld_b, seed, 20, &mut big);
+                        go!(m.ckks_align_tmp_bytes(), |s| m.ckks_align_assign(&mut a, &mut b, s), {
+                            let mut o = ct_out(&a);
+                            o.extend(ct_out(&b));
+                            o
+                        })
+                    }
+                    "ckks_mul_into" | "ckks_mul_assign" | "ckks_square_into" | "ckks_square_assign" => {
+                        let tp = tsk_prepared(c, sh, &tski, &mut big);
+                        let mut a = enc(c, &sp, &p, p.eff_a, p.ld_a, seed, 10, &mut big);
+                        let b = enc(c, &sp, &p, p.eff_b, p.ld_b, seed, 20, &mut big);
+                        let mut dst = alloc_ct(c, &p, p.k_dst);
+                        match op {
+                            "ckks_mul_into" => go!(m.ckks_mul_tmp_bytes(&dst, &tski), |s| m.ckks_mul_into(&mut dst, &a, &b, &tp, s), ct_out(&dst)),
+                            "ckks_mul_assign" => go!(m.ckks_mul_tmp_bytes(&a, &tski), |s| m.ckks_mul_assign(&mut a, &b, &tp, s), ct_out(&a)),
+                            "ckks_square_into" => {
+                                go!(m.ckks_square_tmp_bytes(&dst, &tski), |s| m.ckks_square_into(&mut dst, &a, &tp, s), ct_out(&dst))
+                            }
+                            _ => go!(m.ckks_square_tmp_bytes(&a, &tski), |s| m.ckks_square_assign(&mut a, &tp, s), ct_out(&a)),
+                        }
+                    }
+                    "ckks_mul_pt_vec_znx_into" | "ckks_mul_pt_vec_znx_assign" | "ckks_mul_pt_vec_rnx_into" | "ckks_mul_pt_vec_rnx_assign" => {
+                        let mut a = enc(c, &sp, &p, p.eff_a, p.ld_a, seed, 10, &mut big);
+                        let mut dst = alloc_ct(c, &p, p.k_dst);
+                        let ptz = pt_znx(c, &p, p.pt, seed, 30);
+                        let ptr = pt_rnx(c, seed, 30);
+                        match op {
+                            "ckks_mul_pt_vec_znx_into" => go!(
+                                m.ckks_mul_pt_vec_znx_tmp_bytes(&dst, &a, &p.pt),
+                                |s| m.ckks_mul_pt_vec_znx_into(&mut dst, &a, &ptz, s),
+                                ct_out(&dst)
+                            ),
+                            "ckks_mul_pt_vec_znx_assign" => go!(
+                                m.ckks_mul_pt_vec_znx_tmp_bytes(&a, &a, &p.pt),
+                                |s| m.ckks_mul_pt_vec_znx_assign(&mut a, &ptz, s),
+                                ct_out(&a)
+                            ),
+                            "ckks_mul_pt_vec_rnx_into" => go!(
+                                m.ckks_mul_pt_vec_rnx_tmp_bytes(&dst, &a, &p.pt),
+                                |s| m.ckks_mul_pt_vec_rnx_into(&mut dst, &a, &ptr, p.pt, s),
+                                ct_out(&dst)
+                            ),
+                            _ => go!(
+                                m.ckks_mul_pt_vec_rnx_tmp_bytes(&a, &a, &p.pt),
+                                |s| m.ckks_mul_pt_vec_rnx_assign(&mut a, &ptr, p.pt, s),
+                                ct_out(&a)
+                            ),
+                        }
+                    }
+                    "ckks_mul_pt_const_znx_into" | "ckks_mul_pt_const_znx_assign" | "ckks_mul_pt_const_rnx_into" | "ckks_mul_pt_const_rnx_assign" => {
+                        let mut a = enc(c, &sp, &p, p.eff_a, p.ld_a, seed, 10, &mut big);
+                        let mut dst = alloc_ct(c, &p, p.k_dst);
+                        let cst = cst_rnx(sh, 31);
+                        let cst_z = cst.to_znx(b2k, p.pt).unwrap();
+                        match op {
+                            "ckks_mul_pt_const_znx_into" => go!(
+                                m.ckks_mul_pt_const_tmp_bytes(&dst, &a, &p.pt),
+                                |s| m.ckks_mul_pt_const_znx_into(&mut dst, &a, &cst_z, s),
+                                ct_out(&dst)
+                            ),
+                            "ckks_mul_pt_const_znx_assign" => go!(
+                                m.ckks_mul_pt_const_tmp_bytes(&a, &a, &p.pt),
+                                |s| m.ckks_mul_pt_const_znx_assign(&mut a, &cst_z, s),
+                                ct_out(&a)
+                            ),
+                            "ckks_mul_pt_const_rnx_into" => go!(
+                                m.ckks_mul_pt_const_tmp_bytes(&dst, &a, &p.pt),
+                                |s| m.ckks_mul_pt_const_rnx_into(&mut dst, &a, &cst, p.pt, s),
+                                ct_out(&dst)
+                            ),
+                            _ => go!(
+                                m.ckks_mul_pt_const_tmp_bytes(&a, &a, &p.pt),
+                                |s| m.ckks_mul_pt_const_rnx_assign(&mut a, &cst, p.pt, s),
+                                ct_out(&a)
+                            ),
+                        }
+                    }
+                    "ckks_rotate_into" | "ckks_rotate_assign" | "ckks_conjugate_into" | "ckks_conjugate_assign" => {
+                        let mut a = enc(c, &sp, &p, p.eff_a, p.ld_a, seed, 10, &mut big);
+                        let mut dst = alloc_ct(c, &p, p.k_dst);
+                        let rot = 1 + (sh.extra as i64 % 3);
+                        if op.starts_with("ckks_rotate") {
+                            let mut keys: std::collections::HashMap<i64, GLWEAutomorphismKeyPrepared<DeviceBuf<BE>, BE>> =
+                                std::collections::HashMap::new();
+                            keys.insert(rot, atk_prepared(c, sh, &atki, &s_raw, m.galois_element(rot), &mut big));
+                            if op == "ckks_rotate_into" {
+                                // the query takes one ciphertext layout: the wider buffer of source and destination
+                                let own = if dst.size() >= a.size() { m.ckks_rotate_tmp_bytes(&dst, &atki) } else { m.ckks_rotate_tmp_bytes(&a, &atki) };
+                                go!(own, |s| m.ckks_rotate_into(&mut dst, &a, rot, &keys, s), ct_out(&dst))
+                            } else {
+                                go!(m.ckks_rotate_tmp_bytes(&a, &atki), |s| m.ckks_rotate_assign(&mut a, rot, &keys, s), ct_out(&a))
+                            }
+                        } else {
+                            let key = atk_prepared(c, sh, &atki, &s_raw, -1, &mut big);
+                            if op == "ckks_conjugate_into" {
+                                let own = if dst.size() >= a.size() { m.ckks_conjugate_tmp_bytes(&dst, &atki) } else { m.ckks_conjugate_tmp_bytes(&a, &atki) };
+                                go!(own, |s| m.ckks_conjugate_into(&mut dst, &a, &key, s), ct_out(&dst))
+                            } else {
+                                go!(m.ckks_conjugate_tmp_bytes(&a, &atki), |s| m.ckks_conjugate_assign(&mut a, &key, s), ct_out(&a))
+                            }
+                        }
+                    }
+                    "ckks_add_many" => {
+                        let cnt = 1 + (seed >> 48) as usize % 5;
+                        let cts: Vec<Ct> = (0..cnt)
+                            .map(|i| {
+                                let (eff, ld) = if i % 2 == 0 { (p.eff_a, p.ld_a) } else { (p.eff_b, p.ld_b) };
+                                enc(c, &sp, &p, eff, ld, seed ^ i as u64, 10, &mut big)
+                            })
+                            .collect();
+                        let refs: Vec<&Ct> = cts.iter().collect();
+                        let mut dst = alloc_ct(c, &p, p.k_dst);
+                        go!(m.ckks_add_many_tmp_bytes(), |s| m.ckks_add_many(&mut dst, &refs, s), ct_out(&dst))
+                    }
+                    "ckks_mul_many" => {
+                        let tp = tsk_prepared(c, sh, &tski, &mut big);
+                        let cnt = 1 + (seed >> 48) as usize % 5;
+                        // a product tree of depth d consumes d * log_delta bits of budget: keep log_delta small
+                        let ld = 2 + (seed >> 8) as usize % 4;
+                        let cts: Vec<Ct> = (0..cnt)
+                            .map(|i| {
+                                let eff = if i == 2 { p.eff_b } else { p.eff_a };
+                                enc(c, &sp, &p, eff, ld, seed ^ i as u64, 10, &mut big)
+                            })
+                            .collect();
+                        let refs: Vec<&Ct> = cts.iter().collect();
+                        let mut dst = alloc_ct(c, &p, p.k_dst);
+                        go!(
+                            m.ckks_mul_many_tmp_bytes(cnt, &dst, &tski),
+                            |s| m.ckks_mul_many(&mut dst, &refs, &tp, s),
+                            ct_out(&dst)
+                        )
+                    }
+                    "ckks_mul_add_ct_into" | "ckks_mul_sub_ct_into" => {
+                        let tp = tsk_prepared(c, sh, &tski, &mut big);
+                        let a = enc(c, &sp, &p, p.eff_a, p.ld_a, seed, 10, &mut big);
+                        let b = enc(c, &sp, &p, p.eff_b, p.ld_b, seed, 20, &mut big);
+                        let mut dst = enc(c, &sp, &p, p.k_dst, p.ld_a.min(p.k_dst / 2).max(1), seed, 50, &mut big);
+                        if op == "ckks_mul_add_ct_into" {
+                            go!(
+                                m.ckks_mul_add_ct_tmp_bytes(&dst, &tski),
+                                |s| m.ckks_mul_add_ct_into(&mut dst, &a, &b, &tp, s),
+                                ct_out(&dst)
+                            )
+                        } else {
+                            go!(
+                                m.ckks_mul_sub_ct_tmp_bytes(&dst, &tski),
+                                |s| m.ckks_mul_sub_ct_into(&mut dst, &a, &b, &tp, s),
+                                ct_out(&dst)
+                            )
+                        }
+                    }
+                    "ckks_mul_add_pt_vec_znx_into"
+                    | "ckks_mul_sub_pt_vec_znx_into"
+                    | "ckks_mul_add_pt_vec_rnx_into"
+                    | "ckks_mul_sub_pt_vec_rnx_into"
+                    | "ckks_mul_add_pt_const_znx_into"
+                    | "ckks_mul_sub_pt_const_znx_into"
+                    | "ckks_mul_add_pt_const_rnx_into"
+                    | "ckks_mul_sub_pt_const_rnx_into" => {
+                        let a = enc(c, &sp, &p, p.eff_a, p.ld_a, seed, 10, &mut big);
+                        let mut dst = enc(c, &sp, &p, p.k_dst, p.ld_a.min(p.k_dst / 2).max(1), seed, 50, &mut big);
+                        let ptz = pt_znx(c, &p, p.pt, seed, 30);
+                        let ptr = pt_rnx(c, seed, 30);
+                        let cst = cst_rnx(sh, 31);
+                        let cst_z = cst.to_znx(b2k, p.pt).unwrap();
+                        match op {
+                            "ckks_mul_add_pt_vec_znx_into" => go!(
+                                m.ckks_mul_add_pt_vec_znx_tmp_bytes(&dst, &a, &p.pt),
+                                |s| m.ckks_mul_add_pt_vec_znx_into(&mut dst, &a, &ptz, s),
+                                ct_out(&dst)
+                            ),
+                            "ckks_mul_sub_pt_vec_znx_into" => go!(
+                                m.ckks_mul_sub_pt_vec_znx_tmp_bytes(&dst, &a, &p.pt),
+                                |s| m.ckks_mul_sub_pt_vec_znx_into(&mut dst, &a, &ptz, s),
+                                ct_out(&dst)
+                            ),
+                            "ckks_mul_add_pt_vec_rnx_into" => go!(
+                                m.ckks_mul_add_pt_vec_rnx_tmp_bytes(&dst, &a, &p.pt),
+                                |s| m.ckks_mul_add_pt_vec_rnx_into(&mut dst, &a, &ptr, p.pt, s),
+                                ct_out(&dst)
+                            ),
+                            "ckks_mul_sub_pt_vec_rnx_into" => go!(
+                                m.ckks_mul_sub_pt_vec_rnx_tmp_bytes(&dst, &a, &p.pt),
+                                |s| m.ckks_mul_sub_pt_vec_rnx_into(&mut dst, &a, &ptr, p.pt, s),
+                                ct_out(&dst)
+                            ),
+                            "ckks_mul_add_pt_const_znx_into" => go!(
+                                m.ckks_mul_add_pt_const_tmp_bytes(&dst, &a, &p.pt),
+                                |s| m.ckks_mul_add_pt_const_znx_into(&mut dst, &a, &cst_z, s),
+                                ct_out(&dst)
+                            ),
+                            "ckks_mul_sub_pt_const_znx_into" => go!(
+                                m.ckks_mul_sub_pt_const_tmp_bytes(&dst, &a, &p.pt),
+                                |s| m.ckks_mul_sub_pt_const_znx_into(&mut dst, &a, &cst_z, s),
+                                ct_out(&dst)
+                            ),
+                            "ckks_mul_add_pt_const_rnx_into" => go!(
+                                m.ckks_mul_add_pt_const_tmp_bytes(&dst, &a, &p.pt),
+                                |s| m.ckks_mul_add_pt_const_rnx_into(&mut dst, &a, &cst, p.pt, s),
+                                ct_out(&dst)
+                            ),
+                            _ => go!(
+                                m.ckks_mul_sub_pt_const_tmp_bytes(&dst, &a, &p.pt),
+                                |s| m.ckks_mul_sub_pt_const_rnx_into(&mut dst, &a, &cst, p.pt, s),
+                                ct_out(&dst)
+                            ),
+                        }
+                    }
+                    "ckks_dot_product_ct" => {
+                        let tp = tsk_prepared(c, sh, &tski, &mut big);
+                        let cnt = 1 + (seed >> 48) as usize % 4;
+                        // variants: everything aligned / one left operand with a smaller budget / one right
+                        // operand with a smaller budget / mixed log_delta (term-by-term path)
+                        let variant = (seed >> 44) % 4;
+                        let av: Vec<Ct> = (0..cnt)
+                            .map(|i| {
+                                let (eff, ld) = match variant {
+                                    1 if i == 1 => (p.eff_a.saturating_sub(1 + p.bits).max(2 * p.ld_a), p.ld_a),
+                                    3 if i == 1 => (p.eff_a, p.ld_b),
+                                    _ => (p.eff_a, p.ld_a),
+                                };
+                                enc(c, &sp, &p, eff, ld, seed ^ i as u64, 10, &mut big)
+                            })
+                            .collect();
+                        let bv: Vec<Ct> = (0..cnt)
+                            .map(|i| {
+                                let eff = if variant == 2 && i == 0 { p.eff_b.saturating_sub(1 + p.bits).max(2 * p.ld_b) } else { p.eff_b };
+                                enc(c, &sp, &p, eff, p.ld_b, seed ^ i as u64, 20, &mut big)
+                            })
+                            .collect();
+                        let ar: Vec<&Ct> = av.iter().collect();
+                        let br: Vec<&Ct> = bv.iter().collect();
+                        let mut dst = alloc_ct(c, &p, p.k_dst);
+                        go!(
+                            m.ckks_dot_product_ct_tmp_bytes(cnt, &dst, &tski),
+                            |s| m.ckks_dot_product_ct(&mut dst, &ar, &br, &tp, s),
+                            ct_out(&dst)
+                        )
+                    }
+                    "ckks_dot_product_pt_vec_znx" | "ckks_dot_product_pt_vec_rnx" | "ckks_dot_product_pt_const_znx" | "ckks_dot_product_pt_const_rnx" => {
+                        let cnt = 1 + (seed >> 48) as usize % 4;
+                        let av: Vec<Ct> = (0..cnt)
+                            .map(|i| {
+                                let (eff, ld) = if i % 2 == 0 { (p.eff_a, p.ld_a) } else { (p.eff_b, p.ld_b) };
+                                enc(c, &sp, &p, eff, ld, seed ^ i as u64, 10, &mut big)
+                            })
+                            .collect();
+                        let ar: Vec<&Ct> = av.iter().collect();
+                        let mut dst = alloc_ct(c, &p, p.k_dst);
+                        // the queries take one input layout: the widest of the ciphertext vector
+                        let a_wide: &Ct = av.iter().max_by_key(|x| x.size()).unwrap();
+                        match op {
+                            "ckks_dot_product_pt_vec_znx" => {
+                                let pts: Vec<CKKSPlaintextVecZnx<Vec<u8>>> = (0..cnt).map(|i| pt_znx(c, &p, p.pt, seed ^ i as u64, 30)).collect();
+                                let pr: Vec<&CKKSPlaintextVecZnx<Vec<u8>>> = pts.iter().collect();
+                                go!(
+                                    m.ckks_dot_product_pt_vec_znx_tmp_bytes(&dst, a_wide, &p.pt),
+                                    |s| m.ckks_dot_product_pt_vec_znx(&mut dst, &ar, &pr, s),
+                                    ct_out(&dst)
+                                )
+                            }
+                            "ckks_dot_product_pt_vec_rnx" => {
+                                let pts: Vec<CKKSPlaintextVecRnx<f64>> = (0..cnt).map(|i| pt_rnx(c, seed ^ i as u64, 30)).collect();
+                                let pr: Vec<&CKKSPlaintextVecRnx<f64>> = pts.iter().collect();
+                                go!(
+                                    m.ckks_dot_product_pt_vec_rnx_tmp_bytes(&dst, a_wide, &p.pt),
+                                    |s| m.ckks_dot_product_pt_vec_rnx(&mut dst, &ar, &pr, p.pt, s),
+                                    ct_out(&dst)
+                                )
+                            }
+                            "ckks_dot_product_pt_const_znx" => {
+                                let cs: Vec<CKKSPlaintextCstZnx> = (0..cnt).map(|i| cst_rnx(sh, 31 + i as u8).to_znx(b2k, p.pt).unwrap()).collect();
+                                let cr: Vec<&CKKSPlaintextCstZnx> = cs.iter().collect();
+                                go!(
+                                    m.ckks_dot_product_pt_const_tmp_bytes(&dst, a_wide, &p.pt),
+                                    |s| m.ckks_dot_product_pt_const_znx(&mut dst, &ar, &cr, s),
+                                    ct_out(&dst)
+                                )
+                            }
+                            _ => {
+                                let cs: Vec<CKKSPlaintextCstRnx<f64>> = (0..cnt).map(|i| cst_rnx(sh, 31 + i as u8)).collect();
+                                let cr: Vec<&CKKSPlaintextCstRnx<f64>> = cs.iter().collect();
+                                go!(
+                                    m.ckks_dot_product_pt_const_tmp_bytes(&dst, a_wide, &p.pt),
+                                    |s| m.ckks_dot_product_pt_const_rnx(&mut dst, &ar, &cr, p.pt, s),
+                                    ct_out(&dst)
+                                )
+                            }
+                        }
+                    }
+                    // key set-up members of the aggregate queries (their own queries are covered in ops3.rs)
+                    "tensor_key_prepare" | "tensor_key_encrypt_sk" => {
+                        let mut tsk: GLWETensorKey<Vec<u8>> = GLWETensorKey::alloc_from_infos(&tski);
+                        if op == "tensor_key_encrypt_sk" {
+                            let e = EncryptionLayout::new_from_default_sigma(tski).unwrap();
+                            let declared = decl(m.glwe_tensor_key_encrypt_sk_tmp_bytes(&tski));
+                            let r = windowed(declared, w, &mut |s| {
+                                m.glwe_tensor_key_encrypt_sk(&mut tsk, &s_raw, &e, &mut src(seed, 3), &mut src(seed, 4), s)
+                            });
+                            finish(r, declared, vec![ser(&tsk)])
+                        } else {
+                            tsk.fill_uniform(sh.b_key as usize, &mut src(seed, 40));
+                            let mut tp = m.alloc_tensor_key_prepared_from_infos(&tski);
+                            let declared = decl(m.prepare_tensor_key_tmp_bytes(&tski));
+                            let r = windowed(declared, w, &mut |s| m.prepare_tensor_key(&mut tp, &tsk, s));
+                            // observe the prepared key through a product with generous scratch
+                            let a = enc(c, &sp, &p, p.eff_a, p.ld_a, seed, 10, &mut big);
+                            let mut dst = alloc_ct(c, &p, p.k_dst);
+                            if r.0.is_ok() {
+                                m.ckks_square_into(&mut dst, &a, &tp, big.borrow()).unwrap();
+                            }
+                            finish(r, declared, ct_out(&dst))
+                        }
+                    }
+                    "automorphism_key_encrypt_sk" | "automorphism_key_prepare" => {
+                        let gal = m.galois_element(1 + (sh.extra as i64 % 3));
+                        if op == "automorphism_key_encrypt_sk" {
+                            let mut atk: GLWEAutomorphismKey<Vec<u8>> = GLWEAutomorphismKey::alloc_from_infos(&atki);
+                            let e = EncryptionLayout::new_from_default_sigma(atki).unwrap();
+                            let declared = decl(m.glwe_automorphism_key_encrypt_sk_tmp_bytes(&atki));
+                            let r = windowed(declared, w, &mut |s| {
+                                m.glwe_automorphism_key_encrypt_sk(&mut atk, gal, &s_raw, &e, &mut src(seed, 3), &mut src(seed, 4), s)
+                            });
+                            finish(r, declared, vec![ser(&atk)])
+                        } else {
+                            let atk = atk_real(c, sh, &atki, &s_raw, gal, &mut big);
+                            let mut ap = m.glwe_automorphism_key_prepared_alloc_from_infos(&atk);
+                            let declared = decl(m.glwe_automorphism_key_prepare_tmp_bytes(&atki));
+                            let r = windowed(declared, w, &mut |s| m.glwe_automorphism_key_prepare(&mut ap, &atk, s));
+                            let mut a = enc(c, &sp, &p, p.eff_a, p.ld_a, seed, 10, &mut big);
+                            if r.0.is_ok() {
+                                m.ckks_conjugate_assign(&mut a, &ap, big.borrow()).unwrap();
+                            }
+                            finish(r, declared, ct_out(&a))
+                        }
+                    }
+                    _ => (Err(format!("unknown op {op}")), None),
+                }
             }
         }
     };
